@@ -3,7 +3,7 @@
 // prints the ValueType the real code attached to the root of every expression that sits under a `(void)` cast.
 //
 // argv[1] = directory that holds platforms/*.xml (the repo root)
-// op line :  <platform> <c|cpp> <hexsource>
+// op line :  <platform> <c|cpp> <hexsource>      |      <platform> plat   (prints the Platform fields)
 // output  :  ok <vt> <vt> ...     one entry per `(void)(expr)` statement in token order
 //            err <what>
 // <vt>    :  <type>:<sign>[*<pointer>]   type  in bool char short wchar int long llong unkint float double ldouble void other
@@ -65,6 +65,17 @@ int main(int argc, char** argv) {
     std::string line;
     while (std::getline(std::cin, line)) {
         std::vector<std::string> f = fields(line);
+        if (f.size() == 2 && f[1] == "plat") {
+            // the fields the real Platform object holds after Platform::set(name, ...)
+            Settings s;
+            std::string errstr;
+            if (!s.platform.set(f[0], errstr, {root})) { std::cout << "err platform" << std::endl; continue; }
+            const Platform& p = s.platform;
+            std::cout << "charBit=" << static_cast<unsigned>(p.char_bit) << " short=" << p.sizeof_short << " int=" << p.sizeof_int << " long=" << p.sizeof_long
+                      << " llong=" << p.sizeof_long_long << " charUnsigned=" << (p.defaultSign == 'u' ? 1 : 0)
+                      << " bits=" << static_cast<unsigned>(p.short_bit) << "," << static_cast<unsigned>(p.int_bit) << "," << static_cast<unsigned>(p.long_bit) << "," << static_cast<unsigned>(p.long_long_bit) << std::endl;
+            continue;
+        }
         if (f.size() != 3 || (f[1] != "c" && f[1] != "cpp")) { std::cout << "err bad-op" << std::endl; continue; }
         auto it = cache.find(f[0]);
         if (it == cache.end()) {
